@@ -229,7 +229,10 @@ def build_driver(profile='dev'):
 
 def driver_run(lines, profile='dev', timeout=120):
     path = build_driver(profile)
-    p = subprocess.run([path], input='\n'.join(lines) + '\n', capture_output=True, text=True, timeout=timeout)
+    try:
+        p = subprocess.run([path], input='\n'.join(lines) + '\n', capture_output=True, text=True, timeout=timeout)
+    except subprocess.TimeoutExpired:
+        return ['timeout no answer within %d s' % timeout] * len(lines)
     out = p.stdout.strip().split('\n') if p.stdout.strip() else []
     if len(out) != len(lines):
         out += ['error driver died rc=%s %s' % (p.returncode, p.stderr[-200:].replace('\n', ' '))] * (len(lines) - len(out))
